@@ -246,7 +246,7 @@ func init() {
 		}
 		m.stubs["model:time.Time.Truncate(whole seconds) = ext - ext mod d"]++
 		d1 := BV(64, uint64(d.S()/1000000000))
-		r := BVBin(OpBVSRem, ext, d1)
+		r := m.path.remConst(ext, d1.C)
 		return Struct{wall, BVBin(OpBVSub, ext, r), t[2]}
 	})
 	// (Time).Sub of two wall-clock instants (no monotonic reading) with a symbolic second count: the
@@ -342,7 +342,7 @@ func init() {
 		if m.decide(BVCmp(OpBVSlt, sec, BV(64, 0))) {
 			m.unsupported("Format of an instant before 1970")
 		}
-		day := BVBin(OpBVSDiv, sec, BV(64, 86400))
+		day := m.path.divConst(sec, 86400)
 		if !m.decide(BVCmp(OpBVSlt, day, BV(64, 100000000))) {
 			m.unsupported("Format of an instant beyond day 10^8")
 		}
